@@ -24,10 +24,10 @@ SCEN = {
 }
 
 
-def consts(s, closed, cb, quiet, backoff="FALSE"):
+def consts(s, closed, cb, quiet, backoff="FALSE", extra="none"):
     a, g, d, e, f = SCEN[s]
-    return ("CONSTANTS\n  Addr <- %s\n  Gaps <- %s\n  T = 10\n  D = %d\n  MaxEvents = %d\n  MaxFails = %d\n  Backoff = %s\n  Closed = %s\n  ObserveCb = %s\n  TrackQuiet = %s\n  UnitMs = 1000\n"
-            % (a, g, d, e, f, backoff, closed, cb, quiet))
+    return ("CONSTANTS\n  Addr <- %s\n  Gaps <- %s\n  T = 10\n  D = %d\n  MaxEvents = %d\n  MaxFails = %d\n  Extra = \"%s\"\n  Backoff = %s\n  Closed = %s\n  ObserveCb = %s\n  TrackQuiet = %s\n  UnitMs = 1000\n"
+            % (a, g, d, e, f, extra, backoff, closed, cb, quiet))
 
 
 def write(name, text):
@@ -35,21 +35,25 @@ def write(name, text):
         fh.write(text)
 
 
-# variants of a replayed graph: c/n/oc/on as above with the code's fixed refresh period;
-# nb/onb: an implementation that backs off while publishes fail (callbacks not compared)
-VARIANTS = (("c", "TRUE", "TRUE", "FALSE"), ("n", "TRUE", "FALSE", "FALSE"), ("oc", "FALSE", "TRUE", "FALSE"), ("on", "FALSE", "FALSE", "FALSE"),
-            ("nb", "TRUE", "FALSE", "TRUE"), ("onb", "FALSE", "FALSE", "TRUE"))
+# variants of a replayed graph: c/n/oc/on as above with the code's publish schedule (ticker only, fixed period);
+# x/ox: the loosest behaviour C18 admits - callbacks not compared, a node may publish extra registers (at Start,
+# on handling a message), and may back off while publishes fail as long as the first success restores the period
+VARIANTS = (("c", "TRUE", "TRUE", "FALSE", "none"), ("n", "TRUE", "FALSE", "FALSE", "none"),
+            ("oc", "FALSE", "TRUE", "FALSE", "none"), ("on", "FALSE", "FALSE", "FALSE", "none"),
+            ("x", "TRUE", "FALSE", "TRUE", "any"), ("ox", "FALSE", "FALSE", "TRUE", "any"))
 for s in ("pair_q", "solo", "pairfail", "pair_t", "restart", "trio"):
-    for v, closed, cb, bo in VARIANTS:
-        if bo == "TRUE" and SCEN[s][4] == 0:
-            continue
+    for v, closed, cb, bo, ex in VARIANTS:
         # replayed graph: the quiet counter is frozen (it would only multiply the states)
-        write(f"MC_Peers_{s}_{v}.cfg", "SPECIFICATION Spec\n" + consts(s, closed, cb, "FALSE", bo) + INV + "ACTION_CONSTRAINT Dump\nVIEW View\n")
+        if ex == "any" and s != "solo":
+            ex = "start"   # "any" multiplies the two-node graphs by 30; it is replayed for one node and model-checked for two
+        write(f"MC_Peers_{s}_{v}.cfg", "SPECIFICATION Spec\n" + consts(s, closed, cb, "FALSE", bo, ex) + INV + "ACTION_CONSTRAINT Dump\nVIEW View\n")
 for s in ("pair_q", "solo", "pairfail_mc", "pair_mc", "restart_mc", "trio_mc"):
     # the timed invariants on the same (or a larger) bound
     write(f"MC_Peers_{s}_timed.cfg", "SPECIFICATION Spec\n" + consts(s, "TRUE", "TRUE", "TRUE") + INV + "VIEW View\n")
 # ... and for an implementation with backoff (model check only)
-write("MC_Peers_pairfail_mc_backoff_timed.cfg", "SPECIFICATION Spec\n" + consts("pairfail_mc", "TRUE", "TRUE", "TRUE", "TRUE") + INV + "VIEW View\n")
+write("MC_Peers_pairfail_mc_loose_timed.cfg", "SPECIFICATION Spec\n" + consts("pairfail_mc", "TRUE", "TRUE", "TRUE", "TRUE", "start") + INV + "VIEW View\n")
+write("MC_Peers_pair_q_loose_timed.cfg", "SPECIFICATION Spec\n" + consts("pair_q", "TRUE", "TRUE", "TRUE", "TRUE", "any") + INV + "VIEW View\n")
+
 for s in ("solo", "pairfail_mc", "pair_mc", "restart_mc", "trio"):
     # liveness under fairness (no VIEW: act is part of the behaviour graph)
     write(f"MC_Peers_{s}_live.cfg", "SPECIFICATION FairSpec\n" + consts(s, "TRUE", "TRUE", "FALSE") + "INVARIANTS TypeOK\nPROPERTIES EventuallyAgreed HashCatchesUp\n")
